@@ -67,6 +67,11 @@ R15m a body is reset together with its handlers: every `X.reset_runtime_state(re
      (macro call, Alarm re-arm) is dominated by the removal of the interrupt handlers registered for X's descendants
      (`_abort_block_interrupts(X)` or a loop over `X.get_child_nodes(recursive=True)` calling `_unregister_interrupt`): a handler
      left behind continues in the middle of the reset body and records its states on the items of the new invocation.
+R15n an interpreter that replaces another inherits its tracking state: Tracking drops every state while it is disabled, and a new
+     interpreter starts disabled unless told otherwise - Start enables tracking on the interpreter that exists *then*. Every
+     `PInterpreter(...)` built by MethodManager gets its tracking argument from the replaced interpreter's `tracking.enabled`; if the
+     value comes in through a parameter, every call site outside __init__ passes it (a default of False silently disables the run
+     log for a method saved between Start and the first tick - completed instructions then have no item).
 """
 from __future__ import annotations
 
@@ -533,6 +538,8 @@ def run(ctx) -> None:
                 # X.instance_id with the record looked up from the same X, or record.last_instance_id
                 if isinstance(i_expr, ast.Name) and _all_defs_owned(fn, i_expr.id, rn):
                     ok, why = True, "every definition of the id is owned by the record (match arms)"
+                elif isinstance(i_expr, ast.Attribute) and i_expr.attr == "last_instance_id" and norm(i_expr.value) == rn:
+                    ok, why = True, "the record's own last_instance_id, passed directly"
             if ok:
                 ctx.ok("R15b", inst, {"rule": "R15b", "call": norm(c)[:80], "ownership": why})
             else:
@@ -949,6 +956,66 @@ def run(ctx) -> None:
     _r15i(ctx, prog, cancel)
     _r15j(ctx, prog)
     _r15klm(ctx, prog)
+    _r15n(ctx, prog)
+
+
+def _r15n(ctx, prog):
+    ctx.rule("R15n", "a new interpreter inherits the tracking state of the one it replaces")
+    mm = prog.cls("openpectus.engine.method_manager:MethodManager")
+    n_ctor = 0
+    for fn in mm.methods.values():
+        for c in ast.walk(fn.node):
+            if not (isinstance(c, ast.Call) and norm(c.func).split(".")[-1] == "PInterpreter"):
+                continue
+            n_ctor += 1
+            ctx.analysed(fn)
+            arg = c.args[3] if len(c.args) > 3 else next((k.value for k in c.keywords if k.arg and "track" in k.arg), None)
+            inst = f"{fn.short}: PInterpreter(...) takes its tracking state from the interpreter it replaces"
+            if arg is None:
+                ctx.fail("R15n", fn, c, inst, "the interpreter is built without a tracking argument: it starts with tracking disabled")
+                continue
+            from ..util import local_all_defs
+            defs = local_all_defs(fn)
+            srcs = [arg]
+            if isinstance(arg, ast.Name):
+                srcs = list(defs.get(arg.id, [])) or [arg]
+            inherits = any("tracking.enabled" in norm(x) for x in srcs)
+            params = [a.arg for a in fn.node.args.args]
+            via_param = isinstance(arg, ast.Name) and arg.id in params and not defs.get(arg.id)
+            if inherits:
+                ctx.ok("R15n", inst)
+            elif via_param:
+                # every call site outside __init__ must pass the replaced interpreter's state
+                bad = None
+                n_sites = 0
+                for g2 in mm.methods.values():
+                    for cc in ast.walk(g2.node):
+                        if isinstance(cc, ast.Call) and call_attr_(cc) == fn.name and isinstance(cc.func, ast.Attribute):
+                            n_sites += 1
+                            passed = next((k.value for k in cc.keywords if k.arg == arg.id), None)
+                            pos = params.index(arg.id) - 1
+                            if passed is None and len(cc.args) > pos:
+                                passed = cc.args[pos]
+                            if g2.name == "__init__":
+                                continue
+                            if passed is None or "tracking.enabled" not in norm(passed):
+                                bad = (g2, cc)
+                if bad is None and n_sites:
+                    ctx.ok("R15n", inst)
+                else:
+                    g2, cc = bad if bad else (fn, c)
+                    ctx.fail("R15n", g2, cc, inst, f"`{norm(cc)[:70]}` does not pass the tracking state of the current interpreter (parameter "
+                             f"`{arg.id}` defaults to disabled): a method saved after Start has executed but before the interpreter's "
+                             "first tick replaces the interpreter by one whose Tracking drops every state - instructions run and "
+                             "complete, the run log has no item for them")
+            else:
+                ctx.fail("R15n", fn, c, inst, f"the tracking argument `{norm(arg)[:50]}` does not derive from the replaced interpreter's tracking.enabled")
+    if n_ctor == 0:
+        raise AnchorError("MethodManager builds no PInterpreter")
+
+
+def call_attr_(c):
+    return c.func.attr if isinstance(c.func, ast.Attribute) else (c.func.id if isinstance(c.func, ast.Name) else None)
 
 
 def _monotone_write(fn, st, t, v) -> bool:
